@@ -15,6 +15,7 @@ type loopModSet struct {
 	cells map[*ssa.Alloc]bool
 	heaps map[string]Sort
 	all   bool
+	except []string // with all: package names whose state (globals, fields of their types) is kept
 	atomics bool // atomic ghost heaps are touched
 }
 
@@ -264,7 +265,7 @@ func (c *FnCtx) contractMods(ct *FuncContract, ms *loopModSet) {
 		return
 	}
 	for _, m := range ct.Modifies {
-		if m.Text == "*" {
+		if m.Text == "*" || strings.HasPrefix(m.Text, "*!") {
 			ms.all = true
 			continue
 		}
@@ -369,8 +370,18 @@ func (c *FnCtx) fnMods(fn *ssa.Function, ms *loopModSet, depth int) {
 
 func (c *FnCtx) havoc(st *State, fr *Frame, ms *loopModSet, why string) {
 	if ms.all {
+		prevEpoch := st.epoch
 		c.epochs++
 		st.epoch = c.epochs
+		kept := map[string]int{}
+		for _, x := range ms.except {
+			if ep, ok := st.kept[x]; ok {
+				kept[x] = ep
+			} else {
+				kept[x] = prevEpoch
+			}
+		}
+		st.kept = kept
 		old := st.heap
 		st.heap = map[string]Term{}
 		for k, v := range old {
@@ -378,6 +389,12 @@ func (c *FnCtx) havoc(st *State, fr *Frame, ms *loopModSet, why string) {
 			// touch ghost state must say so: checked structurally by `attr nocall`)
 			if k == "alloc" || strings.HasPrefix(k, "ghost$") || strings.HasPrefix(k, "atomic$") || k == "held$" {
 				st.heap[k] = v
+			}
+			for _, x := range ms.except {
+				// `modifies *!pkg`: everything but the state of package pkg
+				if strings.HasPrefix(k, x+".") || strings.HasPrefix(k, "global$"+x+".") {
+					st.heap[k] = v
+				}
 			}
 		}
 		c.pinned = true
